@@ -214,6 +214,8 @@ func (ev *evaluator) toData(v Val) data.Value {
 		return ev.scriptValue("['k' => 1]")
 	case "obj":
 		return ev.scriptValue("new C03Obj()")
+	case "fn":
+		return ev.scriptValue("function () { return 1; }")
 	}
 	panic("c03 harness: operand kind " + v.K)
 }
@@ -239,6 +241,8 @@ func fromData(x data.GetValue) Val {
 		return Val{K: "amap"}
 	case *data.ClassValue:
 		return Val{K: "obj"}
+	case *data.FuncValue:
+		return Val{K: "fn"}
 	}
 	return Val{K: fmt.Sprintf("other:%T", x)}
 }
@@ -250,6 +254,7 @@ type workerIn struct {
 	Pairs    [][2]Val `json:"pairs"`
 	LitUpTo  int      `json:"lit_up_to"` // pairs [0,LitUpTo) also get the literal forms
 	Unary    []Val    `json:"unary"`
+	Same     []Val    `json:"same"`  // values put on both sides of every operator
 	Start    int      `json:"start"` // resume after a death: first item index to run
 	BaseIdx  int      `json:"base_idx"`
 	MaxWhats int      `json:"max_whats"`
@@ -322,15 +327,17 @@ func workerMain(inPath, outPath string) {
 	defer f.Close()
 	ws := &workerState{ev: newEvaluator(), w: bufio.NewWriterSize(f, 1<<16), seen: map[string]bool{}, counts: map[string]int{},
 		parseErr: map[string]bool{}, outcomes: map[string]int{}}
-	n := len(in.Pairs) + len(in.Unary)
+	n := len(in.Pairs) + len(in.Unary) + len(in.Same)
 	for i := in.Start; i < n; i++ {
 		ws.idx = in.BaseIdx + i
 		fmt.Fprintf(ws.w, "B %d\n", i)
 		ws.w.Flush()
 		if i < len(in.Pairs) {
 			ws.doPair(in.Pairs[i][0], in.Pairs[i][1], i < in.LitUpTo)
-		} else {
+		} else if i < len(in.Pairs)+len(in.Unary) {
 			ws.doUnary(in.Unary[i-len(in.Pairs)])
+		} else {
+			ws.doSame(in.Same[i-len(in.Pairs)-len(in.Unary)])
 		}
 		fmt.Fprintf(ws.w, "E %d\n", i)
 	}
@@ -352,4 +359,35 @@ func panicSite(trace string) string {
 		s = strings.TrimPrefix(s, strings.TrimSuffix(root, "/")+"/")
 	}
 	return s
+}
+
+// evalSamePtr runs `$a OP $b` with one and the same origami value bound to both variables.
+func (ev *evaluator) evalSamePtr(src string, v Val) (out Outcome) {
+	c := ev.compile(src, true)
+	if c.err != "" {
+		return Outcome{T: "parse", Msg: c.err}
+	}
+	ev.uncaught = nil
+	defer func() {
+		if r := recover(); r != nil {
+			st := string(debug.Stack())
+			out = Outcome{T: "panic", Msg: fmt.Sprint(r), Site: panicSite(st)}
+		}
+	}()
+	ctx := ev.vm.CreateContext(c.vars)
+	d := ev.toData(v)
+	if c.ia >= 0 {
+		ctx.SetVariableValue(c.vars[c.ia], d)
+	}
+	if c.ib >= 0 {
+		ctx.SetVariableValue(c.vars[c.ib], d)
+	}
+	val, ctl := c.prog.GetValue(ctx)
+	if ev.uncaught != nil {
+		return Outcome{T: "throw", Msg: ev.uncaught.AsString()}
+	}
+	if ctl != nil {
+		return Outcome{T: "throw", Msg: fmt.Sprintf("%T: %s", ctl, ctl.AsString())}
+	}
+	return Outcome{T: "value", V: fromData(val)}
 }
